@@ -4,19 +4,21 @@
    Model: Handshake/Client.v - makeAuthKey as written AFTER the repairs under /verif/patches/C06.  The server is an
    ARBITRARY environment [e : list bytes -> option bytes]: a function from the plain messages the client has sent so far
    to the next reply body (None: no reply arrives).  This covers every script of reply bytes and every adaptive server.
+   What arrives: Reply body (any bytes in an unencrypted envelope) | TransportError (the 4-byte error frame, e.g. -404) |
+   Closed (the server closes the connection) | nothing at all (None: silent for ever).
    How a run ends: Success key kid salt | Stopped HFailed (makeAuthKey returned an error) | Stopped HPanicked |
-   Stopped HStalled (makeAuthKey never returns: no reply, a reply the read loop cannot decode - C16's subject -, or a
-   factorisation that does not finish).
+   Stopped HStalled (makeAuthKey never returns).  C07_error_unless_silent: the only causes of HStalled are a server that
+   stays silent for ever and a factorisation that does not finish; anything that ARRIVES ends the exchange with an error.
    Effects, in order: SendPlain body | Save key kid salt (SaveSession) | SendEncrypted packet (the application's first
    request after CreateConnection, sealed as in C03).
-   H E D modexp is_prime split foreign_ok: crypto/sha1, crypto/aes, math/big Exp, ProbablyPrime, math.SplitPQ and the
-   generic TL decoder on non-key-exchange constructors - universally quantified; hypotheses appear where needed. *)
+   H E D modexp is_prime split: crypto/sha1, crypto/aes, math/big Exp, ProbablyPrime, math.SplitPQ - universally
+   quantified; hypotheses appear where needed. *)
 From Coq Require Import String.
 From Coq Require Import ZArith NArith List Lia Bool.
 From MTV Require Import Base.Bytes Base.Outcome Base.Str Prim.Hex Prim.Xor Prim.Sha1 Prim.Aes256 Prim.Aes256Facts Prim.Aes256Inv
   Crypto.Ige Crypto.IgeMem Crypto.TempKeys Crypto.Envelope TL.Types
   Handshake.Bytes Handshake.Objects Handshake.Client Handshake.Server Handshake.SplitPQ Handshake.Abort
-  Handshake.Agreement Handshake.NoPanic Props.C06.
+  Handshake.Agreement Handshake.NoPanic Handshake.NoStall Props.C06.
 Import ListNotations.
 Open Scope N_scope.
 
@@ -31,14 +33,14 @@ Open Scope N_scope.
    computed at fixed widths; the key id saved is SHA1(key)[12:20]. *)
 Theorem C07_success_implies_consistent :
   forall (H : bytes -> bytes) (E D : bytes -> bytes -> bytes) (modexp : Z -> Z -> Z -> Z)
-         (is_prime : N -> bool) (split : N -> option (N * N)) (foreign_ok : bytes -> bool)
+         (is_prime : N -> bool) (split : N -> option (N * N))
          (pk : pubkey) (dr : draws) (e : env) eff key hash salt,
-  outcome_of (handshake H E D modexp is_prime split foreign_ok pk dr e) = (eff, Success key hash salt) ->
+  outcome_of (handshake H E D modexp is_prime split pk dr e) = (eff, Success key hash salt) ->
   let nonce := of_be (d_nonce dr) in
   let new_nonce := of_be (d_new_nonce dr) in
   exists f1 f2 f3 r1 r2 r3 srv pqb fps enc_answer h3,
     eff = [SendPlain f1; SendPlain f2; SendPlain f3; Save key hash salt] /\
-    e [f1] = Some r1 /\ e [f1; f2] = Some r2 /\ e [f1; f2; f3] = Some r3 /\
+    e [f1] = Some (Reply r1) /\ e [f1; f2] = Some (Reply r2) /\ e [f1; f2; f3] = Some (Reply r3) /\
     dec_reply r1 = DObj (RResPQ nonce srv pqb fps) /\
     dec_reply r2 = DObj (RDHOk nonce srv enc_answer) /\
     dec_reply r3 = DObj (RGenOk nonce srv h3) /\
@@ -61,9 +63,9 @@ Print Assumptions C07_success_implies_consistent.
    no encrypted request is sent - every effect is a plain message. *)
 Theorem C07_abort_is_clean :
   forall (H : bytes -> bytes) (E D : bytes -> bytes -> bytes) (modexp : Z -> Z -> Z -> Z)
-         (is_prime : N -> bool) (split : N -> option (N * N)) (foreign_ok : bytes -> bool)
+         (is_prime : N -> bool) (split : N -> option (N * N))
          (pk : pubkey) (dr : draws) (e : env) sid msgid seq ack body eff fin,
-  connect_and_request H E D modexp is_prime split foreign_ok pk dr e sid msgid seq ack body = (eff, fin) ->
+  connect_and_request H E D modexp is_prime split pk dr e sid msgid seq ack body = (eff, fin) ->
   (forall key hash salt, fin <> Success key hash salt) ->
   forall x, In x eff -> exists b, x = SendPlain b.
 Proof. exact abort_is_clean. Qed.
@@ -72,9 +74,9 @@ Print Assumptions C07_abort_is_clean.
 (* and on Success: plain messages, then exactly one Save of the returned secrets, then at most the encrypted request *)
 Theorem C07_success_effects :
   forall (H : bytes -> bytes) (E D : bytes -> bytes -> bytes) (modexp : Z -> Z -> Z -> Z)
-         (is_prime : N -> bool) (split : N -> option (N * N)) (foreign_ok : bytes -> bool)
+         (is_prime : N -> bool) (split : N -> option (N * N))
          (pk : pubkey) (dr : draws) (e : env) sid msgid seq ack body eff key hash salt,
-  connect_and_request H E D modexp is_prime split foreign_ok pk dr e sid msgid seq ack body = (eff, Success key hash salt) ->
+  connect_and_request H E D modexp is_prime split pk dr e sid msgid seq ack body = (eff, Success key hash salt) ->
   exists plains tail, plain_only plains /\ eff = plains ++ [Save key hash salt] ++ tail /\
     (tail = [] \/ exists pkt, tail = [SendEncrypted pkt] /\
                               seal_client H (ige_encrypt E) key salt sid msgid seq ack body = Ok pkt).
@@ -86,30 +88,51 @@ Print Assumptions C07_success_effects.
    Exp reduces modulo m, what SplitPQ returns is a factorisation (C06_splitpq_partial), replies are byte strings. *)
 Theorem C07_no_panic :
   forall (H : bytes -> bytes) (E D : bytes -> bytes -> bytes) (modexp : Z -> Z -> Z -> Z)
-         (is_prime : N -> bool) (split : N -> option (N * N)) (foreign_ok : bytes -> bool),
+         (is_prime : N -> bool) (split : N -> option (N * N)),
   (forall m, length (H m) = 20%nat) -> (forall m, okb (H m)) ->
   (forall k b, length (E k b) = 16%nat) -> (forall k b, length (D k b) = 16%nat) ->
   (forall k b, okb k -> okb b -> okb (D k b)) ->
   (forall b e m, (0 <= e)%Z -> (0 < m)%Z -> modexp b e m = ((b ^ e) mod m)%Z) ->
   (forall n a b, split n = Some (a, b) -> a * b = n /\ 1 < a /\ a <= b) ->
-  forall pk dr (e : env), draws_ok dr -> (forall h r, e h = Some r -> okb r) ->
+  forall pk dr (e : env), draws_ok dr -> (forall h r, e h = Some (Reply r) -> okb r) ->
   forall sid msgid seq ack body eff fin,
-    connect_and_request H E D modexp is_prime split foreign_ok pk dr e sid msgid seq ack body = (eff, fin) ->
+    connect_and_request H E D modexp is_prime split pk dr e sid msgid seq ack body = (eff, fin) ->
     fin <> Stopped HPanicked.
 Proof. exact no_panic. Qed.
 Print Assumptions C07_no_panic.
 
+(* ---- 4. ... and it is abandoned WITH AN ERROR: it does not wait for ever on anything that arrives ----
+   If the server answers every request with something - a reply of any bytes (undecodable, unregistered constructor,
+   truncated, wrong kind), a transport error code, closing the connection - and SplitPQ returns (it is only called on a
+   number that passed the not-prime test; termination itself is not proved), the run ends Success or Stopped HFailed. *)
+Theorem C07_error_unless_silent :
+  forall (H : bytes -> bytes) (E D : bytes -> bytes -> bytes) (modexp : Z -> Z -> Z -> Z)
+         (is_prime : N -> bool) (split : N -> option (N * N)),
+  (forall m, length (H m) = 20%nat) -> (forall m, okb (H m)) ->
+  (forall k b, length (E k b) = 16%nat) -> (forall k b, length (D k b) = 16%nat) ->
+  (forall k b, okb k -> okb b -> okb (D k b)) ->
+  (forall b e m, (0 <= e)%Z -> (0 < m)%Z -> modexp b e m = ((b ^ e) mod m)%Z) ->
+  (forall n a b, split n = Some (a, b) -> a * b = n /\ 1 < a /\ a <= b) ->
+  (forall n, split n <> None) ->
+  forall pk dr (e : env), draws_ok dr -> (forall h r, e h = Some (Reply r) -> okb r) ->
+  (forall hist, e hist <> None) ->
+  forall sid msgid seq ack body eff fin,
+    connect_and_request H E D modexp is_prime split pk dr e sid msgid seq ack body = (eff, fin) ->
+    (exists key kid salt, fin = Success key kid salt) \/ fin = Stopped HFailed.
+Proof. exact error_unless_silent. Qed.
+Print Assumptions C07_error_unless_silent.
+
 (* with the Gallina SHA-1 / AES-256 / modpow and the factorisation loop model nothing is assumed but the shape of the inputs *)
 Theorem C07_no_panic_inst :
-  forall (is_prime : N -> bool) (foreign_ok : bytes -> bool) fuel fuel_inner (rnd : nat -> N)
-         pk dr (e : env), draws_ok dr -> (forall h r, e h = Some r -> okb r) ->
+  forall (is_prime : N -> bool) fuel fuel_inner (rnd : nat -> N)
+         pk dr (e : env), draws_ok dr -> (forall h r, e h = Some (Reply r) -> okb r) ->
   forall sid msgid seq ack body eff fin,
-    connect_and_request sha1 aes_enc aes_dec modpow is_prime (split_model fuel fuel_inner rnd) foreign_ok pk dr e
+    connect_and_request sha1 aes_enc aes_dec modpow is_prime (split_model fuel fuel_inner rnd) pk dr e
       sid msgid seq ack body = (eff, fin) ->
     fin <> Stopped HPanicked.
 Proof.
-  intros is_prime foreign_ok fuel fi rnd.
-  apply (no_panic sha1 aes_enc aes_dec modpow is_prime (split_model fuel fi rnd) foreign_ok
+  intros is_prime fuel fi rnd.
+  apply (no_panic sha1 aes_enc aes_dec modpow is_prime (split_model fuel fi rnd)
            sha1_length sha1_bytes_ok aes_enc_length aes_dec_length aes_dec_bytes_ok modpow_spec (split_model_sound fuel fi rnd)).
 Qed.
 Print Assumptions C07_no_panic_inst.
@@ -119,7 +142,7 @@ Print Assumptions C07_no_panic_inst.
    the run stop with an error, with plain messages only.  All computed inside Coq. *)
 Definition ex_env : env := srv_env sha1 aes_enc aes_dec modpow ex_sp.
 Definition ex_client (e : env) :=
-  connect_and_request sha1 aes_enc aes_dec modpow (fun _ => false) ex_split (fun _ => true)
+  connect_and_request sha1 aes_enc aes_dec modpow (fun _ => false) ex_split
     (mkpub ex_rsa_n 1) ex_dr e 77 6000000000000000004 0 true (lit "ping").
 
 Definition flip_last (l : bytes) : bytes :=
@@ -127,9 +150,12 @@ Definition flip_last (l : bytes) : bytes :=
 (* the server's k-th reply (1-based) altered by f *)
 Definition tamper (k : nat) (f : bytes -> bytes) : env :=
   fun hist => match ex_env hist with
-              | Some r => if Nat.eqb (length hist) k then Some (f r) else Some r
-              | None => None
+              | Some (Reply r) => if Nat.eqb (length hist) k then Some (Reply (f r)) else Some (Reply r)
+              | other => other
               end.
+(* the k-th thing that arrives is a instead *)
+Definition instead (k : nat) (a : arrival) : env :=
+  fun hist => if Nat.eqb (length hist) k then Some a else ex_env hist.
 Definition set_crc (c : N) (l : bytes) : bytes := le32 c ++ skipn 4 l.
 Definition aborted_cleanly (r : list effect * final) : bool :=
   match r with
@@ -161,6 +187,14 @@ Proof. vm_compute. reflexivity. Qed.
 
 (* no offered fingerprint matches: the last fingerprint is the only real one in a list of one *)
 Example C07_wrong_fingerprint_aborts :
-  aborted_cleanly (connect_and_request sha1 aes_enc aes_dec modpow (fun _ => false) ex_split (fun _ => true)
+  aborted_cleanly (connect_and_request sha1 aes_enc aes_dec modpow (fun _ => false) ex_split
                      (mkpub (ex_rsa_n + 2) 1) ex_dr ex_env 77 6000000000000000004 0 true (lit "ping")) = true.
+Proof. vm_compute. reflexivity. Qed.
+
+(* what cannot be read at all, at each step: the transport error frame, a closed connection, a body with an
+   unregistered constructor id, a truncated body, an empty body - an error every time, never a stall *)
+Example C07_unreadable_replies_abort :
+  forallb (fun e => aborted_cleanly (ex_client e))
+    [instead 1 TransportError; instead 3 TransportError; instead 1 Closed; instead 2 Closed;
+     instead 1 (Reply []); tamper 2 (set_crc 3735928559); tamper 2 (fun l => firstn (length l - 8) l)] = true.
 Proof. vm_compute. reflexivity. Qed.
